@@ -191,6 +191,9 @@ func genC05(t *Tape, tier string) *Scenario {
 		} else {
 			steps[len(steps)-1].Wait = w()
 		}
+		if c.Last && c.Form == 0 && lock {
+			steps[len(steps)-1].Wait = -1
+		}
 		steps = append(steps, Step{Kind: kMarker, Data: []byte("NOOP\r\n"), Glue: !lock && t.Chance(1, 3), Wait: w(), Tag: "noop"})
 		// expected outcome
 		switch {
